@@ -50,6 +50,9 @@ CHECKS = {
  "C20": dict(engine="simrt+simnet+modelredis", cat="exploration", ref="DESIGN.md 5/C20",
    text="Seeded search over shard topologies, node orderings and per-node per-attempt failure sequences (refused dial, error reply, missing role, garbage) against the real supervisor with its back-off sleeps on the simulated clock; the selected node must have reported master in the deciding round, all others listed, and failure must be bounded.",
    tech="deterministic simulation: node models with tape-drawn per-attempt behaviour, refused-dial faults, simulated clock for the retry back-off"),
+ "C17": dict(engine="simrt+refcodec", cat="exploration", ref="DESIGN.md 5/C17",
+   text="Seeded search over RDB files (every classic encoding, binary keys, special scores, scripts) x 1-8 parallel decoders x interleavings of parser, decoders and writer, through the real decode mode on real files; the multiset of printed elements must equal the reference decoding.",
+   tech="deterministic simulation: scheduled decoder pool over real files; reference RDB writer/decoder as generator and oracle"),
  "C18": dict(engine="simrt", cat="exploration", ref="DESIGN.md 5/C18",
    text="Seeded search over writer/reader/closer scripts and lock-granularity interleavings of the real backlog ring against an absolute-offset log model (interval semantics for in-flight writes), with lost-wake-up analysis at quiescence.",
    tech="deterministic simulation: tape-driven baton scheduler over instrumented locks/conds + absolute-offset log model"),
